@@ -71,7 +71,12 @@ def create_task(coro: Callable[[], Awaitable[Any]], loop: Optional[asyncio.Abstr
 
     async def run_task() -> None:
         with kiwipy.capture_exceptions(future):
-            res = await coro()
+            try:
+                res = await coro()
+            except asyncio.CancelledError:
+                # Not an `Exception`: report the cancellation instead of leaving the future pending for ever
+                future.cancel()
+                return
             future.set_result(res)
 
     asyncio.run_coroutine_threadsafe(run_task(), loop)
